@@ -1,6 +1,6 @@
 """C18 - the execution history is append-only; finished records never change."""
 from ovf.props.common import batches, scale, ASSUME_SIM
-from ovf.workloads import conduct, mon  # noqa: F401
+from ovf.workloads import conduct, corpus, mon  # noqa: F401
 from ovf.props.sweeps import ctl_sweep  # noqa: F401
 
 LEVEL = "exploration"
@@ -60,6 +60,8 @@ def jobs(tier, seed):
     js += batches("rerun_inflight", scale(tier, 120, 2500), scale(tier, 15, 100), gen="mix", p_loop=0.2, P=P, gseed=seed + 2, name="rerun-with-late-reports")
     js += batches("rerun_inflight", scale(tier, 640, 8000), scale(tier, 40, 200), gen="dag", gseed=seed + 3, lazy=80,
                   P=dict(p_join=0.9, p_intjoin=0.9, p_intjoin_less=0.9, nmax=5, p_items=0.05, p_retry=0.05), name="rerun-int-joins")
+    # the repository's own fixture definitions under generated outcomes, schedules and requests
+    js += [dict(fn="corpus", parts=4, part=i, runs=scale(tier, 4, 40), gseed=seed, ctl=dict(req=0.06, max_req=2, crash=0.05), name="corpus") for i in range(4)]
     return js
 
 
